@@ -1,1 +1,194 @@
-Theorem placeholder_removed_later : True. Proof. exact I. Qed. Print Assumptions placeholder_removed_later.
+(* C01 - Handshake proves node identity.
+   Statements about Model/Handler.v (validated against src/handler/{mod,session,active_requests}.rs by
+   the correspondence run of ./check C01).  Every theorem is closed by [exact] of a lemma proved in
+   Proofs/HandlerB_*.v and followed by Print Assumptions.  See DESIGN.md section 6 (Handler model).
+
+   Symbolic setting: a public key is named by the node id it hashes to; [Sig k cd eph dst] verifies only
+   under key k for exactly (cd, eph, dst).  "A party that lacks X's secret key" = no term [Sig X ...]
+   in its packets; the theorems say what an effect REQUIRES of the step's input. *)
+From Coq Require Import List NArith Bool.
+From Discv5V Require Import Model.Handler Proofs.HandlerB_Base Proofs.HandlerB_Frame Proofs.HandlerB_Session
+  Proofs.HandlerB_Auth Proofs.HandlerB_Step Proofs.HandlerB_Examples.
+Import ListNotations.
+Local Open Scope N_scope.
+
+(* Session::establish_from_challenge with the repair of D1: success means the reported record carries
+   the claimed id and the id-signature is the claimed id's signature over exactly this challenge data,
+   this ephemeral key and this node's id.  [ch_enr ch] is the record the service passed with
+   HandlerOut::WhoAreYou; the service looks it up under the claimed node id (ChallOK below). *)
+Theorem C01_establish_binds_id :
+  forall c remote ch sg eph eph_ok rec se e,
+  fix_d1 c = true ->
+  (forall known, ch_enr ch = Some known -> e_id known = remote) ->
+  establish c remote ch sg eph eph_ok rec = EstOk se e ->
+  e_id e = remote /\ sg = Sig remote (ch_cd ch) eph (cfg_local c) /\ eph_ok = true.
+Proof. exact establish_binds_id. Qed.
+Print Assumptions C01_establish_binds_id.
+
+(* Pinned tree (D1): the attached record is used without comparing its id with the claimed id - a
+   handshake claiming id 7, signed by node 9's key and carrying node 9's record, establishes a session
+   keyed to id 7.  Kept as the record of the finding. *)
+Theorem C01_establish_pinned_refuted :
+  exists c remote ch sg eph rec se e,
+    fix_d1 c = false /\
+    (forall known, ch_enr ch = Some known -> e_id known = remote) /\
+    establish c remote ch sg eph true (Some rec) = EstOk se e /\
+    e_id e <> remote /\ (forall cd eph' dst, sg <> Sig remote cd eph' dst) /\
+    k_ida (s_dec se) = remote.
+Proof. exact establish_pinned_refuted. Qed.
+Print Assumptions C01_establish_pinned_refuted.
+
+(* The challenge table: every stored challenge remembers a record of the node it was sent to, and
+   there is at most one challenge per node address - invariant of every step with well-formed events
+   ([ev_wf]: the record passed with EvWhoAreYou carries the node id of the node address). *)
+Theorem C01_challenge_table_invariant :
+  forall c h e now d, ev_wf e -> ChallOK h /\ ChallUniq h ->
+  ChallOK (fst (step c h e now d)) /\ ChallUniq (fst (step c h e now d)).
+Proof. exact step_ChallInv. Qed.
+Print Assumptions C01_challenge_table_invariant.
+
+Theorem C01_challenge_table_reachable :
+  forall c evs, evs_wf evs ->
+  ChallOK (fst (run c init_state evs)) /\ ChallUniq (fst (run c init_state evs)).
+Proof. exact run_ChallInv. Qed.
+Print Assumptions C01_challenge_table_reachable.
+
+(* incoming_identity.  If the step that processes a handshake packet claiming id [src] from address
+   [from] reports anything attributed to a remote node (Established, UnverifiableEnr, Request,
+   Response - [attributing]) or creates / re-keys any session ([session_changed]: some session of the
+   new state holds a key that no session under that address held before), then a WHOAREYOU sent by
+   this node to exactly (src, from) was outstanding before the step and the packet's id-signature is
+   the signature of src's key over that challenge's data, the packet's ephemeral key and this node's id. *)
+Theorem C01_incoming_identity :
+  forall c h from src n aad sg eph eph_ok rec ct now d h' out,
+  fixed_cfg c -> ChallOK h ->
+  step c h (EvInbound from (PHs src n aad sg eph eph_ok rec ct)) now d = (h', out) ->
+  (exists o, In o out /\ attributing o) \/ session_changed h h' ->
+  exists ch deadline,
+    In ((src, from), ch, deadline) (challenges h) /\
+    sg = Sig src (ch_cd ch) eph (cfg_local c) /\ eph_ok = true.
+Proof. intros c h from src n aad sg eph ok rec ct now d h' out [H _]. apply incoming_identity. exact H. Qed.
+Print Assumptions C01_incoming_identity.
+
+(* ... and what is reported is about that node: Established(Incoming) carries a record whose id is
+   src, at the packet's source address; UnverifiableEnr names src. *)
+Theorem C01_incoming_established_id :
+  forall c h from src n aad sg eph eph_ok rec ct now d h' out e a nid,
+  fix_d1 c = true -> ChallOK h ->
+  step c h (EvInbound from (PHs src n aad sg eph eph_ok rec ct)) now d = (h', out) ->
+  In (OEvent (HEstablished e a true)) out \/ In (OEvent (HUnverifiable e a nid)) out ->
+  a = from /\ (In (OEvent (HUnverifiable e a nid)) out -> nid = src) /\
+  (In (OEvent (HEstablished e a true)) out -> e_id e = src).
+Proof. exact incoming_established_id. Qed.
+Print Assumptions C01_incoming_established_id.
+
+(* no_key_no_effect: without a signature term of src's key the packet has none of the effects,
+   whatever node record, nonce, ephemeral key or source address it presents. *)
+Theorem C01_no_key_no_effect :
+  forall c h from src n aad sg eph eph_ok rec ct now d h' out,
+  fix_d1 c = true -> ChallOK h ->
+  step c h (EvInbound from (PHs src n aad sg eph eph_ok rec ct)) now d = (h', out) ->
+  (forall cd e dst, sg <> Sig src cd e dst) ->
+  (forall o, In o out -> ~ attributing o) /\ ~ session_changed h h'.
+Proof. exact no_key_no_effect. Qed.
+Print Assumptions C01_no_key_no_effect.
+
+(* Only inbound WHOAREYOU and handshake packets create or re-key sessions: for every other event every
+   session of the new state descends from one under the same node address (no new key, counter not
+   smaller).  In particular an ordinary message packet never creates a session. *)
+Theorem C01_only_handshakes_create_sessions :
+  forall c h e now d, creates_sessions e = false -> SessD h (fst (step c h e now d)).
+Proof. exact only_handshakes_create_sessions. Qed.
+Print Assumptions C01_only_handshakes_create_sessions.
+
+Theorem C01_message_never_creates_session :
+  forall c h from src n aad ct now d,
+  let h' := fst (step c h (EvInbound from (PMsg src n aad ct)) now d) in
+  SessD h h' /\ incl (map fst (sessions h')) (map fst (sessions h)).
+Proof. exact message_never_creates_session. Qed.
+Print Assumptions C01_message_never_creates_session.
+
+(* delivered_needs_session: whatever a message packet claiming (src, from) makes the handler report is
+   either a datagram / RequestFailed, or WhoAreYou for exactly (src, from), or it is attributed to
+   exactly (src, from) and the packet's body is [CEnc k n m aad] for a decryption key k (current or
+   previous) of the session stored under (src, from) after the implicit tick, with the packet's own
+   nonce and authenticated data, and the reported message is m ([msg_out_ok], [Delivered]). *)
+Theorem C01_delivered_needs_session :
+  forall c h from src n aad ct now d h' out o,
+  step c h (EvInbound from (PMsg src n aad ct)) now d = (h', out) -> In o out ->
+  quiet_out o \/ msg_out_ok (hs (tick c h now d)) (src, from) n aad ct o.
+Proof. exact delivered_needs_session. Qed.
+Print Assumptions C01_delivered_needs_session.
+
+Theorem C01_request_needs_session :
+  forall c h from src n aad ct now d h' out na rid body,
+  step c h (EvInbound from (PMsg src n aad ct)) now d = (h', out) ->
+  In (OEvent (HRequest na rid body)) out ->
+  na = (src, from) /\
+  exists se k, alist_get (src, from) (sessions (hs (tick c h now d))) = Some se /\
+    (k = s_dec se \/ exists oe, s_old se = Some (oe, k)) /\ ct = CEnc k n (MReq rid body) aad.
+Proof. exact request_delivered. Qed.
+Print Assumptions C01_request_needs_session.
+
+(* session_origin: in every reachable state every key (current or previous) of a session stored under
+   (X, a) was derived either with this node's static key for a handshake claimed by X and accepted by
+   establish (recipient side), or with X's static key when this node answered a WHOAREYOU for a
+   request addressed to X (initiator side) - [key_for c X k]. *)
+Theorem C01_session_origin :
+  forall c evs na se k,
+  In (na, se) (sessions (fst (run c init_state evs))) -> In k (sess_keys se) -> key_for c (fst na) k.
+Proof. intros c evs na se k H1 H2. exact (session_origin c evs na se H1 k H2). Qed.
+Print Assumptions C01_session_origin.
+
+(* how sessions change in one step: they descend from the previous ones, or the step is an accepted
+   handshake (establish returned EstOk for the outstanding challenge of (src, from): by
+   C01_establish_binds_id that needs src's signature) or an answered WHOAREYOU, and the new keys have
+   the corresponding shape *)
+Theorem C01_step_sessions :
+  forall c h e now d,
+  let h' := fst (step c h e now d) in
+  SessD h h' \/
+  exists na se, SessN na se h h' /\ s_counter se = 0 /\ s_old se = None /\
+    exists eph cd,
+      (s_dec se = mk_key eph (cfg_local c) cd (fst na) (cfg_local c) false /\
+       s_enc se = mk_key eph (cfg_local c) cd (fst na) (cfg_local c) true /\
+       exists from src n aad sg ok rec ct ch,
+         e = EvInbound from (PHs src n aad sg eph ok rec ct) /\ na = (src, from) /\
+         chall_get na (challenges (hs (tick c h now d))) = Some ch /\ cd = ch_cd ch /\
+         exists e0, establish c src ch sg eph ok rec = EstOk se e0)
+      \/
+      (s_enc se = mk_key eph (fst na) cd (cfg_local c) (fst na) false /\
+       s_dec se = mk_key eph (fst na) cd (cfg_local c) (fst na) true /\
+       exists from n idn seq, e = EvInbound from (PWho n idn seq cd)).
+Proof. exact step_sessions. Qed.
+Print Assumptions C01_step_sessions.
+
+(* outgoing direction (outgoing_needs_x_key): anything a message packet makes the handler attribute to
+   (X, a) was encrypted under a key derived for X *)
+Theorem C01_delivered_under_key_for :
+  forall c h from src n aad ct now d h' out o,
+  KeyInv c h ->
+  step c h (EvInbound from (PMsg src n aad ct)) now d = (h', out) -> In o out -> attributing o ->
+  exists k m, ct = CEnc k n m aad /\ key_for c src k.
+Proof. exact delivered_under_key_for. Qed.
+Print Assumptions C01_delivered_under_key_for.
+
+(* ------------------------------------------------------------------------------------------ *)
+(* the hypotheses are satisfiable: a completed incoming handshake (Proofs/HandlerB_Examples.v) *)
+Example C01_example_incoming_handshake :
+  fixed_cfg ex_cfg /\ ChallOK h_challenged /\
+  step ex_cfg h_challenged (EvInbound 100 pkt_handshake) 12 nod =
+    (fst (run ex_cfg init_state [ev_unknown; ev_whoareyou; ev_handshake]),
+     [OEvent (HEstablished enr7 100 true); OEvent (HRequest (7, 100) 9 0)]) /\
+  (exists o, In o [OEvent (HEstablished enr7 100 true); OEvent (HRequest (7, 100) 9 0)] /\ attributing o).
+Proof.
+  split; [exact ex_cfg_fixed | split; [exact (proj1 h_challenged_ChallOK) | split]].
+  - exact handshake_step.
+  - exact handshake_step_attributes.
+Qed.
+Print Assumptions C01_example_incoming_handshake.
+
+Example C01_example_session_delivers :
+  step ex_cfg h_session (EvInbound 100 pkt_request) 14 nod = (h_session, [OEvent (HRequest (7, 100) 10 0)]).
+Proof. exact request_step. Qed.
+Print Assumptions C01_example_session_delivers.
